@@ -5,6 +5,7 @@ import Pycoin.Proofs.ElectrumCommute
 import Pycoin.Proofs.BIP32Secp
 import Pycoin.Proofs.BIP32Text
 import Pycoin.Proofs.BIP32Coords
+import Pycoin.Proofs.BIP32Path
 /-!
 C09 — Hierarchical key derivation follows BIP32 and commutes with going public.  Property theorems
 (helper lemmas: `Proofs/BIP32*.lean`).
@@ -330,6 +331,48 @@ theorem C09_secp256k1_side_conditions :
   decide +kernel
 
 end ser
+
+/-! ## paths -/
+
+/-- **path_fold.** For a path `e₁/e₂/…/e_k` (elements without `/`, each of the form `int-literal` optionally followed
+by `'`, `p` or `H`, parsed to `steps`) that does not end in `.pub`: `subkey_for_path` is the left fold of
+`subkey(i, is_hardened)` over the steps, starting at the node. -/
+theorem C09_path_fold (g : Gen) (fuel : Nat) (n : Node) (vs : List (List Char)) (hne : vs ≠ [])
+    (hsep : ∀ v ∈ vs, '/' ∉ v) (steps : List (Int × Bool)) (hparse : mapMExcept parseStep vs = .ok steps)
+    (hnopub : (Subpaths.join '/' vs).drop ((Subpaths.join '/' vs).length - 4) ≠ ".pub".toList) :
+    subkeyForPath g fuel n (Subpaths.join '/' vs) = foldSteps g fuel n steps :=
+  subkeyForPath_plain n vs hne hsep steps hparse hnopub
+
+/-- … and with the `.pub` suffix it is the same fold followed by `public_copy()` when the result is private -/
+theorem C09_path_fold_pub (g : Gen) (fuel : Nat) (n : Node) (vs : List (List Char)) (hne : vs ≠ [])
+    (hsep : ∀ v ∈ vs, '/' ∉ v) (steps : List (Int × Bool)) (hparse : mapMExcept parseStep vs = .ok steps) :
+    subkeyForPath g fuel n (Subpaths.join '/' vs ++ ".pub".toList) =
+      (match foldSteps g fuel n steps with
+       | .error e => .error e
+       | .ok key => if key.secretExponent.isSome then key.publicCopy g else .ok key) :=
+  subkeyForPath_pub n vs hne hsep steps hparse
+
+/-- the empty path is the node itself; `".pub"` alone is its public copy -/
+theorem C09_path_empty (g : Gen) (fuel : Nat) (n : Node) :
+    subkeyForPath g fuel n [] = .ok n ∧
+    subkeyForPath g fuel n ".pub".toList = (if n.secretExponent.isSome then n.publicCopy g else .ok n) := by
+  constructor
+  · rfl
+  · unfold subkeyForPath
+    simp
+
+/-- **path spellings.** Replacing the hardening mark of any elements by another of `'`, `p`, `H` changes nothing:
+the loop of `subkey_for_path` gives the same answer (same node or same exception) on the respelled elements. -/
+theorem C09_path_spelling (g : Gen) (fuel : Nat) (c : Char) (hc : c = 'H' ∨ c = 'p' ∨ c = '\'')
+    (vs : List (List Char)) (key : Node) :
+    pathLoop g fuel key (vs.map (respell c)) = pathLoop g fuel key vs :=
+  pathLoop_respell c (by rcases hc with rfl | rfl | rfl <;> decide) vs key
+
+/-- one element: `i'`, `ip`, `iH` parse to the same `(i, hardened)`; an element without mark is not hardened -/
+theorem C09_path_element (digits : List Char) :
+    parseStep (digits ++ ['H']) = parseStep (digits ++ ['p']) ∧ parseStep (digits ++ ['p']) = parseStep (digits ++ ['\'']) ∧
+    parseStep (digits ++ ['H']) = (match Subpaths.pyInt digits with | none => .error .value | some i => .ok (i, true)) := by
+  refine ⟨?_, ?_, ?_⟩ <;> simp [parseStep_snoc, Subpaths.hardeningChars] <;> rfl
 
 /-! ## the sub-key cache is transparent -/
 
